@@ -44,12 +44,54 @@ def jround(x):
     return json.loads(json.dumps(x, allow_nan=False))
 
 
+class SchemaBuildCrash(Exception):
+    """build_json_schema did not answer: it neither returned a schema nor reported the type as unsupported"""
+
+
+class _Alarm(BaseException):      # not an Exception: the library's `except Exception` / suppress blocks must not swallow it
+    pass
+
+
+BUILD_LIMIT_S = 60      # a schema is built in milliseconds; the limit only turns a hang into a finding (generous: loaded machines)
+_crashes = [0]          # after three crashes / hangs in a run the limit drops (the run is a VIOLATION already; keep it short)
+
+
+def unsupported_exc(e: BaseException) -> bool:
+    """the ways the library says "no schema / no serializer for this type" (outside the property)"""
+    return type(e).__module__.startswith("mashumaro") or isinstance(e, NotImplementedError)
+
+
 def build_schema(T, dialect: str, all_refs: bool):
     """real schema as a plain JSON document a standard validator can resolve: for the
-    OpenAPI dialect the definitions are moved to where its $refs point (#/components/schemas)"""
+    OpenAPI dialect the definitions are moved to where its $refs point (#/components/schemas).
+    A crash that is not the library's "unsupported" signal (RecursionError, ...) or a hang is a SchemaBuildCrash."""
+    import signal
+    import warnings
     from mashumaro.jsonschema import build_json_schema, DRAFT_2020_12, OPEN_API_3_1
     dl = DRAFT_2020_12 if dialect == "DRAFT_2020_12" else OPEN_API_3_1
-    s = jround(build_json_schema(T, dialect=dl, all_refs=all_refs).to_dict())
+
+    def on_alarm(signum, frame):
+        raise _Alarm()
+    limit = BUILD_LIMIT_S if _crashes[0] < 3 else 5
+    old = signal.signal(signal.SIGALRM, on_alarm)
+    signal.alarm(limit)
+    try:
+        with warnings.catch_warnings():
+            warnings.simplefilter("ignore")     # "Type Any will be used ... Function doesn't have return annotation"
+            s = build_json_schema(T, dialect=dl, all_refs=all_refs).to_dict()
+    except _Alarm:
+        _crashes[0] += 1
+        raise SchemaBuildCrash(f"no answer within {limit} s") from None
+    except (RecursionError, MemoryError) as e:
+        _crashes[0] += 1
+        raise SchemaBuildCrash(f"{type(e).__name__}: {str(e)[:200]}") from None
+    finally:
+        signal.alarm(0)
+        signal.signal(signal.SIGALRM, old)
+    try:
+        s = jround(s)
+    except RecursionError as e:
+        raise SchemaBuildCrash(f"schema document too deep to dump: {type(e).__name__}") from None
     if dialect == "OPEN_API_3_1" and isinstance(s, dict) and "$defs" in s:
         s = dict(s)
         s["components"] = {"schemas": s.pop("$defs")}
@@ -277,7 +319,11 @@ class Sites:
                 if not f["init"]:
                     self.out.append((path, "init-false"))
                 if (f.get("ser") or ("",))[0] == "fn":
-                    continue        # the member is the (constant, finding-free) output of the user's function
+                    # the member is the (constant, finding-free) output of the user's function -- except that None of a
+                    # nullable field is not passed to the function while the schema has no null alternative (known finding)
+                    if getattr(v, f["name"]) is None and field_nullable(f, e2):
+                        self.out.append((path + (key,), "ovr-nullable"))
+                    continue
                 fv = getattr(v, f["name"])
                 if cfg.get("omit_none") and fv is None and field_nullable(f, e2):
                     continue        # the key is dropped (and, since /repo a5aab21, not required)
@@ -335,7 +381,7 @@ def field_nullable(f, env=None) -> bool:
 
 
 VALIDATOR_OF = {"flag": {"enum", "const"}, "set-collision": {"uniqueItems"}, "tz": {"pattern"},
-                "init-false": {"additionalProperties"}, "nt-ovc": {"type"}}
+                "init-false": {"additionalProperties"}, "nt-ovc": {"type"}, "ovr-nullable": {"type"}}
 
 
 def explain(err, sites) -> set:
@@ -413,8 +459,18 @@ def run_case(ctx, tbl, root, vspecs, src, probe):
         try:
             for dl, ar in COMBOS:
                 schemas[(dl, ar)] = build_schema(T, dl, ar)
+        except SchemaBuildCrash as e:
+            ctx.fail(f"build_json_schema crashed or hung on a supported type: {e} (type {G.ty_src(root, tbl, [])[:80]})",
+                     {"entry": "build_json_schema(ROOT)", "source": src, "type": G.ty_src(root, tbl, []), "dialect": dl, "all_refs": ar,
+                      "check": "build", "observed": str(e), "expected": "a schema, or the library's unsupported-type error"},
+                     {"kind": "schema-build-crash"})
+            return 0
         except Exception as e:
-            ctx.hist("skipped", "schema-unsupported:" + type(e).__name__)
+            if not unsupported_exc(e):
+                ctx.hist("skipped", "schema-build-error:" + type(e).__name__)
+                ctx.notes.append(f"schema build error {type(e).__name__}: {str(e)[:120]} for {G.ty_src(root, tbl, [])[:100]}")
+            else:
+                ctx.hist("skipped", "schema-unsupported:" + type(e).__name__)
             return 0
         try:
             H = make_holder(m)
@@ -579,6 +635,16 @@ FIXED_CASES = [
      "def _sr(v) -> str:\n    return 's'\n@dataclass\nclass Ov(DataClassDictMixin):\n"
      "    x: Optional[int] = field(metadata=field_options(serialize=_sr))\n    y: int = field(default=1, metadata=field_options(serialize=_sr))\n",
      "Ov", ["Ov(1)", "Ov(None)"]),
+    ("field-level override with a container / missing return annotation (42523b8)",
+     "def _fl(v) -> List[str]:\n    return [str(v)]\ndef _fd(v) -> Dict[str, List[int]]:\n    return {'a': [v]}\ndef _fu(v):\n    return v\n"
+     "class _SS(SerializationStrategy):\n    def serialize(self, v) -> List[int]:\n        return [v]\n    def deserialize(self, v):\n        return v[0]\n"
+     "@dataclass\nclass Fo(DataClassDictMixin):\n    x: int = field(metadata={'serialize': _fl})\n"
+     "    y: int = field(metadata=field_options(serialize=_fd))\n"
+     "    z: int = field(metadata=field_options(serialization_strategy={'serialize': lambda v: v}))\n"
+     "    w: int = field(metadata=field_options(serialize=_fu))\n    u: int = field(metadata=field_options(serialization_strategy=_SS()))\n"
+     "    t: List[int] = field(metadata=field_options(serialization_strategy={'serialize': _fl}))\n"
+     "    l: List[List[int]] = field(default_factory=list, metadata=field_options(serialize=_fl))\n",
+     "Fo", ["Fo(1, 2, 3, 4, 5, [6])", "Fo(1, 2, 3, 4, 5, [], [[7]])"]),
     ("same name", "def mk(t):\n    @dataclass\n    class P(DataClassDictMixin):\n        v: t\n    return P\nP1 = mk(int)\nP2 = mk(str)\n"
                   "@dataclass\nclass HP(DataClassDictMixin):\n    a: P1\n    b: P2\n", "HP", ["HP(P1(1), P2('s'))"]),
 ]
@@ -766,7 +832,7 @@ def model_part(ctx: vlib.Ctx):
     br = ctx.theorems("props/C06_schema.vo", ["C06_sound_partial", "C06_tz_pattern", "C06_required_iff_no_default", "C06_satisfiable",
                                               "C06_sound_full_refuted", "C06_flag_refuted", "C06_intkey_refuted", "C06_shared_defs_refuted",
                                               "C06_set_collision_refuted", "C06_init_false_refuted",
-                                              "C06_nt_override_container_refuted",
+                                              "C06_nt_override_container_refuted", "C06_overridden_nullable_refuted",
                                               "C06_nt_mode_schema", "C06_nt_mode_pack"], kernels=["K6", "K6N"])
     r = ctx.rng
     want = ctx.budget(150, 1000)
@@ -981,50 +1047,84 @@ def required_part(ctx):
     """`required` and nullability: kernels K20 (CodeBuilder.is_field_nullable) and K6R (on_dataclass) against the
     model; (T) validation of both translations on sampled field declarations"""
     ctx.theorems("props/C06_required.vo", ["K20_spec", "K20_wrappers_transparent", "C06_schema_requires_spec",
-                                           "C06_fnullable_is_K20", "C06_frequired_is_K6R"], kernels=["K20", "K6R"])
+                                           "C06_fnullable_is_K20", "C06_frequired_is_K6R", "C06_fnullable_typevar_is_K20",
+                                           "C06_frequired_typevar_is_K6R", "C06_unbound_typevar_nullable"], kernels=["K20", "K6R"])
     kr = ctx.kernel_report
     if not (kr.get("K20", {}).get("ok") and kr.get("K6R", {}).get("ok")):
         return
     from mashumaro.core.meta.code.builder import CodeBuilder
     from mashumaro.jsonschema import build_json_schema
     r = ctx.rng
-    # (ftype in (Any, NoneType, None), is_optional, union with a None member)
-    cores = [("int", (0, 0, 0)), ("Optional[int]", (0, 1, 1)), ("Any", (1, 0, 0)), ("None", (1, 0, 0)), ("Literal[1, None]", (0, 0, 0)),
-             ("Union[int, None, str]", (0, 0, 1)), ("Union[int, str]", (0, 0, 0)), ("List[Optional[int]]", (0, 0, 0)), ("str", (0, 0, 0))]
+    # observations (hand-written, per declaration): (ftype in (Any, NoneType, None), is_type_var_any(real_type), is_optional(ftype, params),
+    #   ftype is a union with a None member, real_type in (Any, NoneType, None), real_type is a union with a None member)
+    # real_type = the written type with the type variables of the specialisation substituted
+    def same(a, o, u):
+        return (a, 0, o, u, a, u)
+    cores = [("int", None, same(0, 0, 0)), ("Optional[int]", None, same(0, 1, 1)), ("Any", None, same(1, 0, 0)), ("None", None, same(1, 0, 0)),
+             ("Literal[1, None]", None, same(0, 0, 0)), ("Union[int, None, str]", None, same(0, 0, 1)), ("Union[int, str]", None, same(0, 0, 0)),
+             ("List[Optional[int]]", None, same(0, 0, 0)), ("str", None, same(0, 0, 0)),
+             # generic dataclass K(Generic[T]) specialised as K[arg] ("" = used without arguments): since /repo 4da7e9e the
+             # nullability of `x: T` is that of what T is bound to
+             ("T", "int", (0, 0, 0, 0, 0, 0)), ("T", "Optional[int]", (0, 0, 0, 0, 0, 1)), ("T", "None", (0, 0, 0, 0, 1, 0)),
+             ("T", "Any", (0, 0, 0, 0, 1, 0)), ("T", "Union[int, None, str]", (0, 0, 0, 0, 0, 1)), ("T", "", (0, 1, 0, 0, 0, 0)),
+             ("T", "List[Optional[int]]", (0, 0, 0, 0, 0, 0)), ("T", "Union[int, str]", (0, 0, 0, 0, 0, 0)),
+             ("Optional[T]", "int", (0, 0, 1, 1, 0, 1)), ("Optional[T]", "Optional[str]", (0, 0, 1, 1, 0, 1)),
+             ("Union[T, int]", "str", (0, 0, 0, 0, 0, 0)), ("Union[T, int]", "Optional[str]", (0, 0, 0, 0, 0, 1)),
+             ("Union[T, int]", "None", (0, 0, 1, 0, 0, 1)), ("List[T]", "Optional[int]", (0, 0, 0, 0, 0, 0))]
     stacks = [[], ["A"], ["F"], ["F", "A"], ["A", "A"], ["A", "F"]]
     cases, descr = [], []
-    for _ in range(ctx.budget(60, 300)):
-        core, (anyn, opt, unone) = r.choice(cores)
-        st = r.choice(stacks)
-        dflt = r.choice([None, None, "None", "1"])
-        omit = r.random() < 0.6
+    cb_ = lambda b: "true" if b else "false"
+    n_samples = ctx.budget(90, 400)
+    for i in range(n_samples):
+        # every declaration at least once (plain), then random declarations under random wrapper stacks
+        core, targ, obs = cores[i] if i < len(cores) else r.choice(cores)
+        st = [] if i < len(cores) else r.choice(stacks)
+        dflt = None if i < len(cores) else r.choice([None, None, "None", "1"])
+        omit = True if i < len(cores) else r.random() < 0.6
+        if targ is not None and dflt == "1":
+            dflt = None
         ts = core
         for w in reversed(st):
             ts = f"Annotated[{ts}, 'n']" if w == "A" else f"Final[{ts}]"
-        src = (G.PRELUDE2 + "@dataclass\nclass K(DataClassDictMixin):\n" + f"    x: {ts}" + (f" = {dflt}" if dflt is not None else "")
-               + ("\n    class Config(BaseConfig):\n        omit_none = True" if omit else "") + "\nROOT = K\n")
+        src = (G.PRELUDE2 + "T = TypeVar('T')\n@dataclass\nclass K(DataClassDictMixin" + (", Generic[T]" if targ is not None else "") + "):\n"
+               + f"    x: {ts}" + (f" = {dflt}" if dflt is not None else "")
+               + ("\n    class Config(BaseConfig):\n        omit_none = True" if omit else "")
+               + "\nROOT = K" + (f"[{targ}]" if targ else "") + "\n")
         try:
             m = load_module(src)
         except Exception:
             ctx.hist("skipped", "required-sample-unsupported")
             continue
         try:
-            cb = CodeBuilder(m.K)
+            import typing
+            cb = CodeBuilder(m.K, type_args=typing.get_args(m.ROOT))
             cb.reset()
             ft = cb.get_field_types(include_extras=True)["x"]
             en = bool(cb.is_field_nullable("x", ft))
-            er = "x" in build_json_schema(m.K).to_dict().get("required", [])
+            er = "x" in build_json_schema(m.ROOT).to_dict().get("required", [])
+            # the serializer's side of the same decision: under omit_none the key of a None value is dropped iff nullable
+            dropped = None
+            if omit:
+                from mashumaro.codecs.basic import BasicEncoder
+                try:
+                    dropped = "x" not in BasicEncoder(m.ROOT).encode(m.K(None))
+                except Exception as e:
+                    ctx.hist("skipped", "required-sample-encode:" + type(e).__name__)
         except Exception as e:
             ctx.hist("skipped", "required-sample:" + type(e).__name__)
             continue
         finally:
             unload_module(m)
-        term = f"(FCore (mkCore {'true' if anyn else 'false'} false {'true' if opt else 'false'} {'true' if unone else 'false'}))"
+        if dropped is not None and dropped != en:
+            ctx.fail(f"omit_none: the key of x: {ts} = None (specialisation {targ!r}) is {'dropped' if dropped else 'kept'} but is_field_nullable says {en}",
+                     {"entry": "required-sample", "source": src, "check": "omit-none-vs-nullable", "observed": {"dropped": dropped, "nullable": en},
+                      "expected": "dropped == nullable"}, {"kind": "omit-none-nullable-mismatch"})
+        ctx.hist("required_samples", "typevar-field" if targ is not None else "plain-field")
+        term = "(FCore (mkCore " + " ".join(cb_(x) for x in obs) + "))"
         for w in reversed(st):
             term = f"(FAnnotated {term})" if w == "A" else f"(FFinal (Some {term}))"
-        cb_ = lambda b: "true" if b else "false"
         cases.append(f"({term}, {cb_(dflt == 'None')}, {cb_(dflt is not None)}, {cb_(omit)}, {cb_(en)}, {cb_(er)})")
-        descr.append(f"x: {ts}{' = ' + dflt if dflt else ''} omit_none={omit} -> nullable {en}, required {er}")
+        descr.append(f"x: {ts}{' = ' + dflt if dflt else ''} in K{'[' + targ + ']' if targ else ''} omit_none={omit} -> nullable {en}, required {er}")
     okf = ("fun c => match c with (t, d, h, o, en, er) => Bool.eqb (is_field_nullable t d) en && "
            "match schema_requires (KBool h) (KBool o) (KBool (is_field_nullable t d)) with Ok (KBool b) => Bool.eqb b er | _ => false end end")
     bad, log = vlib.coq_bad_idx("c06_k20", "PyK_nullable", "From VerifGen Require Import K20 K6R.", "", cases, okf,
@@ -1054,7 +1154,13 @@ def run_fixed(ctx, descr, src, vals):
     try:
         H = make_holder(m)
         for dl, ar in COMBOS:
-            s = build_schema(m.ROOT, dl, ar)
+            try:
+                s = build_schema(m.ROOT, dl, ar)
+            except SchemaBuildCrash as e:
+                ctx.fail(f"{descr}: build_json_schema crashed or hung: {e}",
+                         {"entry": "fixed", "source": src, "dialect": dl, "all_refs": ar, "check": "build", "observed": str(e),
+                          "expected": "a schema"}, {"kind": "schema-build-crash"})
+                break
             for node in schema_nodes(s):
                 mn, mx = node.get("minItems"), node.get("maxItems")
                 if mn is not None and mx is not None and mn > mx:
@@ -1143,6 +1249,15 @@ def replay(rep: dict) -> int:
                 print("error:", e.validator, list(e.absolute_path), e.message[:200])
             print("REPRODUCED" if errs else "not reproduced")
             return 1 if errs else 0
+        if chk == "build":
+            try:
+                build_schema(m.ROOT, rep["dialect"], rep["all_refs"])
+            except SchemaBuildCrash as e:
+                print("build_json_schema:", e)
+                print("REPRODUCED")
+                return 1
+            print("not reproduced")
+            return 0
         if chk == "satisfiable":
             s = build_schema(m.ROOT, rep["dialect"], rep["all_refs"])
             bad = [nd for nd in schema_nodes(s) if nd.get("minItems") is not None and nd.get("maxItems") is not None and nd["minItems"] > nd["maxItems"]]
